@@ -268,6 +268,82 @@ def tomo_multi_cases(draw):
     return {"kind": "tomo_multi", "models": models, "ops": [list(o) for o in ops]}
 
 
+def _fl2(lo, hi):
+    return st.floats(lo, hi, allow_nan=False).map(lambda v: round(v, 2))
+
+
+@st.composite
+def recon_cases(draw, ctx=None):
+    """End to end: a tiny Ptychography object and a drawn sequence of reconstruct() calls (real
+    optimiser steps), each with its own reset flag and constraints for the object AND probe models."""
+    t = draw(st.sampled_from(["complex", "pure_phase", "potential"]))
+    side = st.sampled_from([6, 4, 5, 8])
+    S = draw(st.sampled_from([2, 3, 2, 1]))
+    M = draw(st.sampled_from([1, 2, 3, 2]))
+    gs = st.sampled_from([1.0, 2.0])
+    b = {
+        "seed": draw(st.integers(0, 10**6)),
+        "geom": {
+            "R": draw(side),
+            "C": draw(side),
+            "gpts": [draw(st.sampled_from([2, 3])), draw(st.sampled_from([2, 3]))],
+            "sampling": [0.4, 0.4],
+            "step_px": [draw(gs), draw(gs)],
+            "pad": [draw(st.sampled_from([0, 1, 2])), draw(st.sampled_from([0, 1, 2]))],
+            "energy": draw(st.sampled_from([80e3, 300e3])),
+            "counts": 100.0,
+        },
+        "M": M,
+        "S": S,
+        "thick": draw(st.sampled_from([2.0, 5.0, 10.0])),
+        "obj_type": t,
+        "obj_init": draw(st.sampled_from(["array", "uniform", "random"])),
+    }
+    for a in (0, 1):  # a field of view of exactly one object pixel is degenerate
+        if b["geom"]["gpts"][a] == 2 and b["geom"]["step_px"][a] < 1.05:
+            b["geom"]["step_px"][a] = 2.0
+    calls = []
+    for k in range(draw(st.sampled_from([1, 2, 2, 3]))):
+        call = {"num_iters": draw(st.sampled_from([1, 2, 3])), "reset": draw(st.sampled_from([True, True, False]))}
+        if k == 0 or draw(st.booleans()):
+            okind = draw(st.sampled_from(["sgd", "adam"]))
+            opt = {"object": {"type": okind, "lr": draw(st.sampled_from([0.5, 0.1, 0.02])) if okind == "sgd" else 0.02}}
+            if draw(st.sampled_from([True, True, False])):
+                opt["probe"] = {"type": okind, "lr": draw(st.sampled_from([0.05, 0.01])) if okind == "sgd" else 0.01}
+            call["opt"] = opt
+        if draw(st.sampled_from([True, True, True, False])):
+            co = {}
+            if draw(st.sampled_from([True, True, False])):
+                co["identical_slices"] = draw(st.sampled_from([True, True, False]))
+            if draw(st.booleans()):
+                co["positivity"] = draw(st.sampled_from([True, True, False]))
+            if draw(st.booleans()):
+                co["apply_fov_mask"] = draw(st.booleans())
+            if draw(st.integers(0, 3)) == 0:
+                co["fix_potential_baseline"] = draw(st.booleans())
+            if draw(st.integers(0, 3)) == 0:
+                co["tv_weight_xy"] = 0.01
+            if ctx is not None and ctx.is_open(KEY_PP) and t == "pure_phase" and co.get("apply_fov_mask"):
+                ctx.exclude(KEY_PP)
+                co["apply_fov_mask"] = False
+            cp = {}
+            if draw(st.sampled_from([True, True, False])):
+                cp["orthogonalize_probe"] = draw(st.sampled_from([True, True, True, False]))
+            if draw(st.integers(0, 3)) == 0:
+                cp["tv_weight"] = 0.01
+            cons = {}
+            which = draw(st.sampled_from(["both", "both", "object", "probe"]))
+            if which in ("both", "object"):
+                cons["object"] = co
+            if which in ("both", "probe"):
+                cons["probe"] = cp
+            call["constraints"] = cons
+        if draw(st.integers(0, 2)) == 0:
+            call["batch_size"] = draw(st.sampled_from([1, 2, 3]))
+        calls.append(call)
+    return {"kind": "recon", "build": b, "calls": calls}
+
+
 @st.composite
 def _stack(draw):
     M = draw(MODES)
@@ -663,10 +739,11 @@ def _max_offdiag(case):
     return float(np.max(np.abs(C - np.diag(np.diag(C)))))
 
 
-def _judge_modes(ctx, case, out, I_in, what, tol_orth):
+def _judge_modes(ctx, case, out, I_in, what, tol_orth, hw=None):
     M = len(I_in)
-    if tuple(out.shape) != (M, case["h"], case["w"]):
-        raise core.Violation("%s: shape %s, expected %s" % (what, out.shape, (M, case["h"], case["w"])), case)
+    hw = tuple(hw) if hw is not None else (case["h"], case["w"])
+    if tuple(out.shape) != (M,) + hw:
+        raise core.Violation("%s: shape %s, expected %s" % (what, out.shape, (M,) + hw), case)
     _fin(case, what, out)
     G = B.gram(out)
     I_out = np.real(np.diag(G)).copy()
@@ -799,6 +876,144 @@ def _check_init(ctx, case):
             raise core.Violation("probe (after hard constraints): total intensity %.9g, measured mean intensity %.9g" % (tot, mi), case)
 
 
+_RECON_READY = False
+
+
+def _prep_recon():
+    """One-time per process: warm quantem/torch up, then move everything allocated so far out of the
+    garbage collector's sight.  reconstruct() calls gc.collect() twice per call, which costs ~0.2 s
+    each with torch + hypothesis loaded and ~0 after gc.freeze(); freezing changes no behaviour."""
+    global _RECON_READY
+    if _RECON_READY:
+        return
+    import gc
+
+    from vq.gen import c10_recon as RB
+
+    warm = {"seed": 0, "M": 1, "S": 1, "thick": None, "obj_type": "complex", "obj_init": "uniform",
+            "geom": {"R": 6, "C": 6, "gpts": [2, 2], "sampling": [0.4, 0.4], "step_px": [2.0, 2.0], "pad": [0, 0], "energy": 80e3, "counts": 100.0}}
+    pt = RB.build(warm)
+    pt.reconstruct(1, reset=True, optimizer_params={"object": {"type": "adam", "lr": 1e-3}})
+    del pt
+    gc.collect()
+    gc.freeze()
+    _RECON_READY = True
+
+
+def _check_recon(ctx, case):
+    import copy
+
+    from vq.gen import c10_recon as RB
+
+    b = case["build"]
+    t, S, M = b["obj_type"], int(b["S"]), int(b["M"])
+    calls = case["calls"]
+    # what is requested, call by call (harness side)
+    req_tie = [bool(c.get("constraints", {}).get("object", {}).get("identical_slices") is True) and S > 1 for c in calls]
+    req_pos = [bool(c.get("constraints", {}).get("object", {}).get("positivity") is True) and t == "potential" for c in calls]
+    req_orth = [bool(c.get("constraints", {}).get("probe", {}).get("orthogonalize_probe") is True) and M >= 2 for c in calls]
+    same_call = any(c["reset"] and c.get("constraints", {}).get("object") for c in calls)
+    cls = ["recon", "recon:calls=%d" % len(calls), "recon:obj=" + t, "recon:S=%d" % S, "recon:M=%d" % M]
+    if same_call:
+        cls.append("recon:reset_and_object_constraints_in_same_call")
+    if any(c["reset"] and r for c, r in zip(calls, req_tie)):
+        cls.append("recon:reset_and_identical_slices_in_same_call")
+    if any((not c["reset"]) and c.get("constraints") for c in calls[1:]):
+        cls.append("recon:constraints_changed_without_reset")
+    ctx.record(case, any(req_tie) or any(req_pos) or any(req_orth), cls)
+
+    _prep_recon()
+    states = []
+    with ctx.sut(case, "Ptychography: build, preprocess"):
+        pt = RB.build(b)
+        ip0 = pt.probe_model.initial_probe.detach().numpy().astype(np.complex128)
+        mean_int = float(pt.dset.mean_diffraction_intensity)
+    # the initial probe of the assembled reconstruction carries the measured mean intensity with the
+    # default mode weights (no weights are requested here)
+    Ik = _fft_int(ip0)
+    if tuple(ip0.shape) != (M, b["geom"]["R"], b["geom"]["C"]):
+        raise core.Violation("initial probe has shape %s" % (ip0.shape,), case)
+    tot = float(Ik.sum())
+    if not abs(tot - mean_int) <= RT_INT * mean_int:
+        raise core.Violation("reconstruction set up: initial probe total diffraction intensity %.9g, measured mean intensity %.9g" % (tot, mean_int), case)
+    exp_w = np.array([1 - 0.02 * (M - 1)] + [0.02] * (M - 1))
+    if not np.max(np.abs(Ik / tot - exp_w) / exp_w) <= RT_INT:
+        raise core.Violation("reconstruction set up: initial probe mode weights %s, default %s" % ((Ik / tot).tolist(), exp_w.tolist()), case)
+
+    for k, c in enumerate(calls):
+        kw = {"num_iters": int(c["num_iters"]), "reset": bool(c["reset"])}
+        if c.get("opt"):
+            kw["optimizer_params"] = copy.deepcopy(c["opt"])
+        if "constraints" in c:
+            kw["constraints"] = copy.deepcopy(c["constraints"])
+        if c.get("batch_size"):
+            kw["batch_size"] = int(c["batch_size"])
+        with ctx.sut(case, "reconstruct() call %d" % (k + 1)):
+            pt.reconstruct(**kw)
+            om, pm = pt.obj_model, pt.probe_model
+            raw_o = om.params.detach().numpy().copy()
+            raw_p = pm.params[-1].detach().numpy().astype(np.complex128)
+            obj = om.obj.detach().numpy().copy()
+            pidx = pt.dset.forward(np.arange(int(pt.dset.num_gpts)), pt.obj_padding_px)[0]
+            patches = om.forward(pidx).detach().numpy().copy()
+            probe = pm.probe.detach().numpy().astype(np.complex128)
+        states.append((raw_o, raw_p, obj, patches, probe))
+
+    may_tie = False
+    for k, (raw_o, raw_p, obj, patches, probe) in enumerate(states):
+        who = "after reconstruct() call %d of %d (reset=%s): " % (k + 1, len(calls), calls[k]["reset"])
+        may_tie = may_tie or req_tie[k]
+        if not (np.all(np.isfinite(raw_o)) and np.all(np.isfinite(raw_p))):
+            ctx.count("recon:diverged")  # the optimisation itself blew up: no admissible input any more
+            return
+        if tuple(obj.shape) != tuple(raw_o.shape):
+            raise core.Violation("%sobj has shape %s, parameters %s" % (who, obj.shape, raw_o.shape), case)
+        _fin(case, who + "obj", obj)
+        _fin(case, who + "object patches handed to the forward model", patches)
+        amp = np.abs(obj.astype(np.complex128))
+        pamp = np.abs(patches.astype(np.complex128))
+        if t == "complex":
+            if float(amp.max()) - 1.0 > EPS_AMP or float(pamp.max()) - 1.0 > EPS_AMP:
+                raise core.Violation("%scomplex object: max |o| = %.9g (patches %.9g) > 1" % (who, amp.max(), pamp.max()), case)
+        elif t == "pure_phase":
+            if not may_tie:  # a (possibly still active) slice tying shortens the phasors
+                d = max(float(np.max(np.abs(amp - 1.0))), float(np.max(np.abs(pamp - 1.0))))
+                if d > EPS_AMP:
+                    raise core.Violation("%spure_phase object: |o| deviates from 1 by %.6g" % (who, d), case)
+        else:
+            if req_pos[k] and float(obj.min()) < 0.0:
+                raise core.Violation("%spositivity requested in this call but the potential has min %.9g" % (who, obj.min()), case)
+            if float(np.max(np.abs(pamp - 1.0))) > EPS_AMP:
+                raise core.Violation("%stransmission exp(iV) handed to the forward model has |.| != 1" % who, case)
+        if req_tie[k]:
+            ctx.count("recon:tie_judged")
+            spread_raw = float(np.max(np.abs(raw_o - raw_o[:1])))
+            if spread_raw > 0:
+                ctx.count("recon:tie_judged_with_untied_parameters")
+            if not all(np.array_equal(obj[s], obj[0]) for s in range(1, S)):
+                d = max(float(np.max(np.abs(obj[s] - obj[0]))) for s in range(1, S))
+                raise core.Violation(
+                    "%sidentical_slices=True was requested in this call but obj_model.obj slices differ by up to %.6g (raw parameters: %.6g)" % (who, d, spread_raw),
+                    case,
+                )
+            if not all(np.array_equal(patches[s], patches[0]) for s in range(1, S)):
+                d = max(float(np.max(np.abs(patches[s] - patches[0]))) for s in range(1, S))
+                raise core.Violation("%sidentical_slices=True was requested in this call but the patches handed to the forward model differ between slices by up to %.6g" % (who, d), case)
+        if req_orth[k]:
+            G = B.gram(raw_p)
+            I_in = np.real(np.diag(G)).copy()
+            dd = np.sqrt(np.outer(I_in, I_in))
+            Cn = G / dd
+            ev = np.linalg.eigvalsh(Cn)
+            off = np.abs(Cn - np.diag(np.diag(Cn)))
+            if float(off.max()) > 0.99 or float(ev[0]) < 0.005:
+                ctx.count("recon:orth_skipped_modes_outside_domain")
+            else:
+                ctx.count("recon:orth_judged")
+                tol = ORTH_FLOOR + ORTH_K * EPS32 * float(ev[-1] / ev[0])
+                _judge_modes(ctx, case, probe, I_in, who + "probe (orthogonalize_probe=True requested in this call)", tol, hw=(b["geom"]["R"], b["geom"]["C"]))
+
+
 def check(ctx, case):
     k = case["kind"]
     if k == "obj":
@@ -813,6 +1028,8 @@ def check(ctx, case):
         return _check_obj_multi(ctx, case)
     if k == "tomo_multi":
         return _check_tomo_multi(ctx, case)
+    if k == "recon":
+        return _check_recon(ctx, case)
     raise core.HarnessError("unknown C10 case kind %r" % (k,))
 
 
@@ -823,3 +1040,4 @@ def search(ctx):
     core.run_given(ctx, "init", init_cases(), lambda c: check(ctx, c), ctx.n(500, 5000))
     core.run_given(ctx, "tomo", tomo_cases(), lambda c: check(ctx, c), ctx.n(300, 3000))
     core.run_given(ctx, "tomo_multi", tomo_multi_cases(), lambda c: check(ctx, c), ctx.n(350, 3500))
+    core.run_given(ctx, "recon", recon_cases(ctx), lambda c: check(ctx, c), ctx.n(200, 2000))
